@@ -25,13 +25,14 @@ func main() {
 		Rule: "PRNG case list: blobs (random, zero runs with repeated chunk IDs, repetitive) with chunker-made indexes and hand-made equal-size-chunk indexes, 1..700 chunks, worker count n in 1..64 (batch size chunks/(10n)), " +
 			"file mutation in {none, one byte changed in the first / last / a batch-boundary / a later duplicate-ID / a random chunk, truncated or extended by 1..max bytes, two equal-size chunks swapped, empty file vs empty index}; library VerifyIndex and `desync verify-index`. " +
 			"Oracle: independent predicate (length equal and every range hashes to its ID) <=> nil / exit 0; on success the progress events sum to the chunk count. Non-trivial: a mutated file (must be rejected) or a matching file with >=2 batches; distinct by (mutation, chunk-count bucket, n bucket, index kind)",
-		Assumptions:   []string{"independent predicate uses the Go standard library hash over the index ranges"},
-		Cases:         cases,
-		Run:           run,
-		ParentSetup:   parentSetup,
-		Setup:         func(c *harness.Ctx) { cli = os.Getenv("VERIF_CLI") },
-		MinNonTrivial: 20,
-		CaseTimeout:   120 * time.Second,
+		Assumptions:     []string{"independent predicate uses the Go standard library hash over the index ranges"},
+		Cases:           cases,
+		Run:             run,
+		ParentSetup:     parentSetup,
+		Setup:           func(c *harness.Ctx) { cli = os.Getenv("VERIF_CLI") },
+		SpinIsViolation: true,
+		MinNonTrivial:   20,
+		CaseTimeout:     120 * time.Second,
 	})
 }
 
